@@ -258,3 +258,7 @@ mod tests {
         assert_eq!(slab.get(0), &[0x07]);
     }
 }
+
+#[cfg(cberner_raptorq_verif)]
+#[path = "/verif/hooks/symbol_slab_hooks.rs"]
+pub(crate) mod verif_hooks;
